@@ -6,13 +6,20 @@ unmodified sequence (known by construction: the decorated peptide strings are bu
 UNIQUE peptide of the target group or of its decoy counterpart; if there is at least one, the result holds exactly
 one entry for the pair: group name, peptide string, plain sequence, score and target flag of the best-scoring such
 row. Rows of peptides shared between groups contribute nothing, so the result holds nothing else.
-All scores are distinct. Protein q-values (confidence.py, C01 formula) are not part of this module.
+All scores are distinct.
+
+protein_level_pipeline runs the whole of mokapot.assign_confidence(..., proteins=...) on small PSM tables under several
+level configurations (peptide level only; finer further levels ModifiedPeptide / Precursor; a coarser further level
+PeptideGroup after the peptides; do_rollup off where that runs) and compares targets.proteins + decoys.proteins with
+the entries derived here from the retained peptide-level rows, the q-value column with the C01 formula over exactly
+these entries.
 """
 import itertools
 import json
 import logging
 import multiprocessing
 import random
+import time
 import warnings
 
 import numpy as np
@@ -65,13 +72,13 @@ def group_name(j, side):
     return ", ".join(members)
 
 
-def build_proteins(n_groups, assign, has_decoys):
+def build_proteins(n_groups, assign, has_decoys, peps=PEPS):
     """assign: per peptide the tuple of groups that contain it -> a Proteins object as read_fasta would build it"""
     from mokapot.proteins import Proteins
     peptide_map, shared = {}, {}
     for i, gs in enumerate(assign):
         for side in ("T", "D") if has_decoys else ("T",):
-            pep = PEPS[i] if side == "T" else mirror(PEPS[i])
+            pep = peps[i] if side == "T" else mirror(peps[i])
             if len(gs) == 1:
                 peptide_map[pep] = group_name(gs[0], side)
             else:
@@ -429,6 +436,264 @@ def check_strip(tier, seed):
     return ck
 
 
+# ------------------------------------------------------------------ the whole pipeline: assign_confidence(proteins=...)
+AA = "ACDEFGHILMNPQSTVWY"
+PROT_COLS = ["mokapot protein group", "best peptide", "stripped sequence", "score", "q-value", "posterior_error_prob"]
+# (class of level configuration, level_columns as read_percolator orders them: the peptide column first, do_rollup)
+LEVEL_CONFIGS = [
+    ("peptide-level-only", ["Peptide"], True),
+    ("finer-extra-levels", ["Peptide", "ModifiedPeptide"], True),
+    ("finer-extra-levels", ["Peptide", "Precursor"], True),
+    ("finer-extra-levels", ["Peptide", "ModifiedPeptide", "Precursor"], True),
+    ("coarser-extra-level", ["Peptide", "PeptideGroup"], True),
+    ("coarser-extra-level", ["Peptide", "ModifiedPeptide", "Precursor", "PeptideGroup"], True),
+    ("coarser-extra-level", ["Peptide", "PeptideGroup", "Precursor"], True),
+    ("no-rollup", ["Peptide"], False),
+    ("no-rollup", ["Peptide", "PeptideGroup"], False),
+]
+GROUPINGS = ["any-peptides", "same-side-peptides", "within-pair-side"]
+
+
+def plain_peptides(n, rng):
+    """n different 7-residue sequences, none of them the mirror image of itself or of another one"""
+    out, used = [], set()
+    while len(out) < n:
+        p = "".join(rng.choice(AA) for _ in range(6)) + rng.choice("KR")
+        if mirror(p) == p or p in used or mirror(p) in used:
+            continue
+        used.update((p, mirror(p)))
+        out.append(p)
+    return out
+
+
+def pipeline_dataset(seed, idx, attempt=0):
+    """-> dict(n_groups, assign, peps, psms). psms: one dict per PSM (spectrum, score, the level columns, and what
+    is known by construction: plain sequence, side, protein groups holding the peptide)"""
+    rng = random.Random("pipeline-%s-%s-%s" % (seed, idx, attempt))
+    n_groups = rng.randint(8, 14)
+    n_pep = n_groups + rng.randint(4, 12)
+    peps = plain_peptides(n_pep, rng)
+    assign = []
+    for i in range(n_pep):
+        if rng.random() < 0.8:
+            assign.append((rng.randrange(n_groups),))
+        else:
+            assign.append(tuple(sorted(rng.sample(range(n_groups), 2))))
+    psms = []
+    for i, gs in enumerate(assign):
+        for side in ("T", "D"):
+            if rng.random() < 0.15:
+                continue                                                   # never identified
+            plain = peps[i] if side == "T" else mirror(peps[i])
+            st = rng.randrange(N_STYLES)
+            for text in [decorate(plain, st)] + ([decorate(plain, st + 1 + rng.randrange(N_STYLES - 1))]
+                                                if rng.random() < 0.3 else []):
+                for k in range(rng.randint(1, 3)):
+                    mod = text + ("" if k == 0 else "~v%d" % rng.randint(1, 2))
+                    psms.append({"text": text, "plain": plain, "target": side == "T", "groups": gs, "pep": i,
+                                 "ModifiedPeptide": mod, "Precursor": "%s/%d" % (mod, rng.randint(2, 3)),
+                                 "rank": rng.random() + (0.5 if side == "T" and i % 3 else 0.0)})
+    rng.shuffle(psms)
+    order = sorted(range(len(psms)), key=lambda r: psms[r]["rank"])
+    for v, r in enumerate(order):
+        psms[r]["score"] = 10 + 0.5 * v                                    # pairwise distinct, exact in text files
+    scan = 0
+    for n, r in enumerate(psms):
+        if n == 0 or rng.random() >= 0.25:
+            scan += 1                                                      # otherwise: competes for the previous spectrum
+        r["scan"] = scan
+    # the peptide-group column: a partition of the peptide strings (so coarser than the peptide level)
+    mode = GROUPINGS[idx % len(GROUPINGS)]
+    texts = sorted({r["text"] for r in psms})
+    rng.shuffle(texts)
+    info = {r["text"]: r for r in psms}
+    group_of = {}
+    if mode == "within-pair-side":
+        for t in texts:
+            group_of[t] = "pg%s%s" % ("_".join(map(str, info[t]["groups"])), "t" if info[t]["target"] else "d")
+    else:
+        pools = [texts] if mode == "any-peptides" else [[t for t in texts if info[t]["target"]],
+                                                         [t for t in texts if not info[t]["target"]]]
+        n = 0
+        for pool in pools:
+            k = 0
+            while k < len(pool):
+                size = rng.randint(1, 3)
+                for t in pool[k:k + size]:
+                    group_of[t] = "pg%d" % n
+                n += 1
+                k += size
+    for r in psms:
+        r["PeptideGroup"] = group_of[r["text"]]
+    return {"n_groups": n_groups, "assign": assign, "peps": peps, "psms": psms, "grouping": mode}
+
+
+def retained_peptides(psms):
+    """the peptide level by its definition: of the PSMs that are the best of their spectrum, the best one of every
+    peptide string"""
+    best_of_spectrum = {}
+    for r in psms:
+        if r["scan"] not in best_of_spectrum or r["score"] > best_of_spectrum[r["scan"]]["score"]:
+            best_of_spectrum[r["scan"]] = r
+    best_of_peptide = {}
+    for r in best_of_spectrum.values():
+        if r["text"] not in best_of_peptide or r["score"] > best_of_peptide[r["text"]]["score"]:
+            best_of_peptide[r["text"]] = r
+    return list(best_of_peptide.values())
+
+
+def formula_qvalues(entries):
+    """C01 formula, literally: q_i = min({1} u {(D(t) + 1) / T(t): t at or worse than score_i, T(t) > 0}); the counts
+    only change at attained scores. entries: [(score, target flag)] -> floats"""
+    out = []
+    for s, _ in entries:
+        q = 1.0
+        for t in {e[0] for e in entries if e[0] <= s}:
+            n_t = sum(1 for e in entries if e[0] >= t and e[1])
+            n_d = sum(1 for e in entries if e[0] >= t and not e[1])
+            if n_t:
+                q = min(q, (n_d + 1) / n_t)
+        out.append(q)
+    return out
+
+
+def pipeline_usable(ds):
+    """both sides win a pair (without a decoy entry mokapot cannot write the level: not the subject here)"""
+    exp = expected_entries(ds["n_groups"], retained_peptides(ds["psms"]))
+    return len(exp) >= 6 and sum(1 for e in exp.values() if not e[4]) >= 2 and sum(1 for e in exp.values() if e[4]) >= 2
+
+
+def usable_dataset(seed, idx):
+    for attempt in range(50):
+        ds = pipeline_dataset(seed, idx, attempt)
+        if pipeline_usable(ds):
+            return ds
+    raise RuntimeError("no usable data set")
+
+
+def pipeline_case(ds, config, d):
+    """one assign_confidence call -> (problems, ran). problems: list of (case, what)"""
+    from mokapot.confidence import assign_confidence
+    from harness.datasets import make_ds
+    klass, level_columns, do_rollup = LEVEL_CONFIGS[config]
+    psms = ds["psms"]
+    df = pd.DataFrame({"SpecId": ["psm%d" % n for n in range(len(psms))],
+                       "Label": [1 if r["target"] else -1 for r in psms],
+                       "ScanNr": [r["scan"] for r in psms],
+                       "ExpMass": [500.0 + r["scan"] for r in psms],
+                       "f0": [float(r["score"]) for r in psms],
+                       "Peptide": [r["text"] for r in psms],
+                       "ModifiedPeptide": [r["ModifiedPeptide"] for r in psms],
+                       "Precursor": [r["Precursor"] for r in psms],
+                       "PeptideGroup": [r["PeptideGroup"] for r in psms],
+                       "Proteins": ["; ".join(group_name(j, "T" if r["target"] else "D") for j in r["groups"])
+                                    for r in psms]})
+    work = d / ("c%d" % config)
+    (work / "out").mkdir(parents=True)
+    data = make_ds(df, work / "in.pin", level_columns=level_columns,
+                   extra_metadata=["ModifiedPeptide", "Precursor", "PeptideGroup"])
+    prot = build_proteins(ds["n_groups"], ds["assign"], True, ds["peps"])
+    np.random.seed(config)
+    try:
+        assign_confidence([data], max_workers=1, scores=[df["f0"].values.astype(float)], descs=[True], eval_fdr=0.2,
+                          dest_dir=work / "out", prefixes=[None], decoys=True, do_rollup=do_rollup, proteins=prot,
+                          rng=config)
+    except BaseException as e:                                # noqa: BLE001  (qvality leaves with SystemExit)
+        if not do_rollup:
+            return [], False                                  # protein inference without rollup is not offered
+        return [("pipeline-raises", "%s: %s" % (type(e).__name__, str(e).replace(str(d), "<dir>")[:200]))], True
+    parts = []
+    for name, flag in (("targets.proteins", True), ("decoys.proteins", False)):
+        path = work / "out" / name
+        if not path.exists():
+            return [("result-file-missing", name)], True
+        part = pd.read_csv(path, sep="\t")
+        if list(part.columns) != PROT_COLS:
+            return [("result-columns", "%s: %s" % (name, list(part.columns)))], True
+        part["Label"] = flag
+        parts.append(part)
+    got = pd.concat(parts, ignore_index=True)
+    rows = retained_peptides(psms)
+    exp = expected_entries(ds["n_groups"], rows)
+    names = {}
+    for j in range(ds["n_groups"]):
+        names[group_name(j, "T")] = j
+        names[group_name(j, "D")] = j
+    problems = compare(got[["mokapot protein group", "best peptide", "stripped sequence", "score", "Label"]], exp,
+                       names.get, rows, True)
+    if not problems:
+        keys = sorted(exp)
+        want_q = dict(zip(keys, formula_qvalues([(exp[j][3], exp[j][4]) for j in keys])))
+        for g, q in zip(got["mokapot protein group"], got["q-value"]):
+            if not abs(float(q) - want_q[names[g]]) <= 1e-6:
+                problems.append(("wrong-protein-qvalue", "entry %r: q-value %r, the formula over the %d expected "
+                                 "entries gives %r" % (g, float(q), len(keys), want_q[names[g]])))
+    return problems, True
+
+
+def _pipeline_work(job):
+    seed, idx, config = job
+    ds = usable_dataset(seed, idx)
+    rows = retained_peptides(ds["psms"])
+    group_of = {p["text"]: p["PeptideGroup"] for p in ds["psms"]}
+    by_group = {}
+    for r in rows:
+        by_group.setdefault(group_of[r["text"]], set()).add((r["groups"], r["target"]))
+    mixed = any(len(v) > 1 for v in by_group.values())       # a peptide group holds peptides of different pairs/sides
+    shared = any(len(r["groups"]) > 1 for r in rows)
+    klass, level_columns, do_rollup = LEVEL_CONFIGS[config]
+    with scratch("c15_") as d:
+        problems, ran = pipeline_case(ds, config, d)
+    nontrivial = shared and (mixed or "PeptideGroup" not in level_columns)
+    return (idx, config, ran, nontrivial, [("%s-with-%s" % (case, klass), what) for case, what in problems],
+            len(ds["psms"]))
+
+
+def check_pipeline(tier, seed):
+    n_sets = 16 if tier == "quick" else 240
+    t0 = time.time()
+    import mokapot.confidence                           # noqa: F401  (imported once, before the workers fork)
+    from mokapot.qvalues import tdc
+    tdc(np.array([3.0, 2.0, 1.0]), np.array([True, False, True]))    # result unused: numba compiles once, not per worker
+    with multiprocessing.Pool(min(16, multiprocessing.cpu_count())) as pool:
+        results = pool.map(_pipeline_work, [(seed, idx, config) for idx in range(n_sets)
+                                            for config in range(len(LEVEL_CONFIGS))], chunksize=1)
+    no_rollup = [r for r in results if not LEVEL_CONFIGS[r[1]][2]]
+    ck = Check("protein_level_pipeline", "mokapot.confidence.assign_confidence(proteins=...) -> targets.proteins / "
+               "decoys.proteins (LinearConfidence._assign_confidence, picked_protein, qvalues_from_scores)",
+               "random: %d PSM tables (seed %d; 8-14 protein-group pairs, 12-26 peptides of which ~20%% shared between "
+               "two groups, target and mirrored decoy form (each missing with p=0.15), 1-2 notations per peptide, 1-3 PSMs "
+               "per notation with ModifiedPeptide / Precursor variants, ~25%% of the PSMs competing for a spectrum; "
+               "the PeptideGroup column partitions the peptide strings (1-3 random strings per group, of any side or of "
+               "one side, or all strings of one pair and side as a harmless control): %s in turn; distinct scores, "
+               "targets of two peptides in three favoured; Proteins object "
+               "built directly, has_decoys=True) x %d level configurations %s; do_rollup=False is compared only where "
+               "the call returns (%d of %d such calls here; otherwise nothing is checked)"
+               % (n_sets, seed, GROUPINGS, len(LEVEL_CONFIGS), [(c[1], c[2]) for c in LEVEL_CONFIGS],
+                  sum(1 for r in no_rollup if r[2]), len(no_rollup)),
+               "rows of targets.proteins + decoys.proteins == one entry per pair owning a retained unique peptide "
+               "(retained = best PSM of its spectrum, then best per peptide string; computed here from the PSM table), "
+               "equal to the pair's best such peptide (group, peptide, plain sequence, score, file = winning side), "
+               "whatever further levels are configured; q-value column == C01 formula over exactly these entries "
+               "(abs. tol. 1e-6); non-trivial = a shared peptide is retained and, when a PeptideGroup level is "
+               "configured, some peptide group holds retained peptides of different pairs or sides")
+    ck.t0 = t0
+    viols = []
+    for idx, config, ran, nontrivial, problems, n_psms in results:
+        if not ran:
+            continue
+        ck.case((idx, GROUPINGS[idx % len(GROUPINGS)]) + LEVEL_CONFIGS[config][1:], nontrivial=nontrivial)
+        seen = set()
+        for case, what in problems:
+            if case not in seen:
+                seen.add(case)
+                viols.append((case, what, {"seed": seed, "idx": idx, "config": config,
+                                           "level_columns": LEVEL_CONFIGS[config][1],
+                                           "do_rollup": LEVEL_CONFIGS[config][2], "n_psms": n_psms}))
+    _feed(ck, sorted(viols, key=lambda v: (v[2]["n_psms"], v[2]["idx"], v[2]["config"], v[0])))
+    return ck
+
+
 def REPLAY(check_name, violation):
     inp = violation["input"]
     if isinstance(inp, str):
@@ -443,6 +708,12 @@ def REPLAY(check_name, violation):
             problems, _ = fasta_case(tuple(inp["structure"]), inp["n_pep"], inp["layout"], inp["counter"],
                                      inp["seed"], d)
         return {"violated": bool(problems), "detail": (problems or [])[:3]}
+    if check_name == "protein_level_pipeline":
+        with scratch("c15_") as d:
+            klass = LEVEL_CONFIGS[inp["config"]][0]
+            problems, ran = pipeline_case(usable_dataset(inp["seed"], inp["idx"]), inp["config"], d)
+        problems = [("%s-with-%s" % (case, klass), what) for case, what in problems]
+        return {"violated": bool(problems), "detail": problems[:3], "ran": ran}
     if check_name == "strip_peptides":
         from mokapot.picked_protein import strip_peptides
         got = list(strip_peptides(pd.Series(inp["series"])))
@@ -455,7 +726,7 @@ if __name__ == "__main__":
     a = args()
     np.random.seed(a.seed)
     emit([check_with_decoys(a.tier, a.seed), check_without_decoys(a.tier, a.seed), check_fasta(a.tier, a.seed),
-          check_strip(a.tier, a.seed)],
+          check_strip(a.tier, a.seed), check_pipeline(a.tier, a.seed)],
          ["every peptide of the table is a unique or a shared peptide of the database (no unmappable peptides, so the "
           "'could not be mapped' error paths are not exercised); the table's target flag agrees with the side of the "
           "group that contains the peptide",
@@ -464,4 +735,9 @@ if __name__ == "__main__":
           "target peptides have pairwise different residue compositions, so match_decoy has exactly one candidate",
           "lowercase letters: either terminal markers next to upper-case residues, or a table that is lowercase "
           "throughout",
-          "protein q-values over these entries (confidence.py / C01) are outside this module"])
+          "protein_level_pipeline: level_columns start with the peptide column, as read_percolator builds them; "
+          "Proteins with has_decoys=True only; data sets in which fewer than two pairs are won by either side (or fewer "
+          "than six pairs have an entry) are redrawn, because mokapot cannot write a level without decoys and qvality "
+          "needs a few scores (neither is the subject here); assign_confidence(do_rollup=False, proteins=...) raises "
+          "on the current tree (no peptide level to infer proteins from): such calls are counted in the bound text and "
+          "not compared; the posterior_error_prob column is not checked"])
